@@ -827,11 +827,12 @@ protected:
       }
 
       std::size_t requestEndPos;
+      std::string decodedBody;
 
       if (isChunked)
       {
         // Handle chunked encoding
-        requestEndPos = findChunkedRequestEnd(dataStr, headerEnd + 4);
+        requestEndPos = findChunkedRequestEnd(dataStr, headerEnd + 4, &decodedBody);
         if (requestEndPos == CHUNKED_MALFORMED)
         {
           // More data cannot repair a malformed chunk-size line: close instead of waiting
@@ -857,8 +858,10 @@ protected:
         requestEndPos = totalExpectedLength;
       }
 
-      // Extract complete request
-      std::string requestData = dataStr.substr(0, requestEndPos);
+      // Extract complete request. A chunked body is handed on DECODED (RFC 9112 §7.1.3): the
+      // handler must see the payload, not the chunk-size lines / extensions / trailers.
+      std::string requestData =
+        isChunked ? dataStr.substr(0, headerEnd + 4) + decodedBody : dataStr.substr(0, requestEndPos);
 
       // Remove processed data from buffer
       dataStr = dataStr.substr(requestEndPos);
@@ -1374,8 +1377,10 @@ protected:
   /// make valid (as opposed to std::string::npos = incomplete, need more data).
   static constexpr std::size_t CHUNKED_MALFORMED = std::string::npos - 1;
 
-  /// \brief Find the end of a chunked request body
-  std::size_t findChunkedRequestEnd(const std::string &data, std::size_t bodyStart) const
+  /// \brief Find the end of a chunked request body; if \p decoded is given, the chunk data
+  /// (the decoded body) is appended to it.
+  std::size_t findChunkedRequestEnd(const std::string &data, std::size_t bodyStart,
+                                    std::string *decoded = nullptr) const
   {
     std::size_t pos = bodyStart;
 
@@ -1459,6 +1464,15 @@ protected:
       if (chunkSize > available || available - chunkSize < 2)
       {
         return std::string::npos; // Need more data
+      }
+      if (data.compare(pos + chunkSize, 2, "\r\n") != 0)
+      {
+        iora::core::Logger::error("HttpServer: Chunk data not terminated by CRLF");
+        return CHUNKED_MALFORMED;
+      }
+      if (decoded)
+      {
+        decoded->append(data, pos, chunkSize);
       }
       pos += chunkSize + 2;
     }
